@@ -173,6 +173,11 @@ func (changes *Changes) checkFileNames() error {
 		if err := internal.CheckPlainName(file.Filename); err != nil {
 			return err
 		}
+		if file.Filename == filepath.Base(changes.Filename) {
+			/* it would be transferred as an ordinary member, that is,
+			 * before the files listed after it */
+			return fmt.Errorf("Refusing to touch '%s': the .changes lists itself", file.Filename)
+		}
 	}
 	return nil
 }
